@@ -72,6 +72,9 @@ BinProgs ==
           f \in {"add", "subtract", "multiply", "divide"}}
   \cup {<< Leaf(1, <<2, 3>>, "NZ", FALSE), Leaf(2, <<3, 2>>, "BNZ", FALSE), [k |-> "op", h |-> 3, f |-> "T", a |-> <<Opnd(2)>>],
            [k |-> "op", h |-> 4, f |-> f, a |-> <<Opnd(1), Opnd(3)>>] >> : f \in {"add", "multiply", "divide", "maximum"}}
+  \* a tensor together with its own ndarray (x.data): a constant that shares the tensor's memory
+  \cup {<< Leaf(1, <<2, 3>>, "NZ", FALSE), [k |-> "op", h |-> 2, f |-> f, a |-> o] >> :
+          f \in {"add", "subtract", "multiply", "divide", "maximum"}, o \in {<<Opnd(1), [hd |-> 1]>>, <<[hd |-> 1], Opnd(1)>>}}
   \* Python-scalar and plain-array operands
   \cup {<< Leaf(1, <<2, 3>>, "NZ", FALSE), [k |-> "op", h |-> 2, f |-> f, a |-> o] >> :
           f \in {"add", "subtract", "multiply", "divide"},
@@ -231,7 +234,18 @@ EinProgs ==
             [sh |-> <<<<2, 3>>, <<3>>>>, a |-> <<Opnd(1)>>, subs |-> <<<<0, 1>>>>, out |-> <<0>>],                              \* ij->i
             [sh |-> <<<<2, 3>>, <<3>>>>, a |-> <<Opnd(1)>>, subs |-> <<<<0, 1>>>>, out |-> <<>>],                               \* ij->
             [sh |-> <<<<3, 3>>, <<3>>>>, a |-> <<Opnd(1)>>, subs |-> <<<<0, 0>>>>, out |-> <<>>],                               \* ii->   (trace)
-            [sh |-> <<<<2, 1, 3>>, <<3, 2>>>>, a |-> <<Opnd(1), Opnd(2)>>, subs |-> <<<<0, 1, 2>>, <<2, 3>>>>, out |-> <<0, 3>>]}}  \* ijk,kl->il (sums a length-1 axis)
+            [sh |-> <<<<2, 1, 3>>, <<3, 2>>>>, a |-> <<Opnd(1), Opnd(2)>>, subs |-> <<<<0, 1, 2>>, <<2, 3>>>>, out |-> <<0, 3>>],   \* ijk,kl->il (sums a length-1 axis)
+            \* axes of length 1 broadcast against longer axes under the same label - also on a traced operand
+            [sh |-> <<<<1, 1>>, <<3>>>>, a |-> <<Opnd(1), Opnd(2)>>, subs |-> <<<<0, 0>>, <<0>>>>, out |-> <<0>>],              \* ii,i->i   a:(1,1)
+            [sh |-> <<<<1, 1>>, <<3>>>>, a |-> <<Opnd(1), Opnd(2)>>, subs |-> <<<<0, 0>>, <<0>>>>, out |-> <<>>],               \* ii,i->
+            [sh |-> <<<<1, 2, 2>>, <<2>>>>, a |-> <<Opnd(1), Opnd(2)>>, subs |-> <<<<0, 1, 1>>, <<0>>>>, out |-> <<0>>],        \* bii,b->b  x:(1,2,2)
+            [sh |-> <<<<2, 2>>, <<1>>>>, a |-> <<Opnd(1), Opnd(2)>>, subs |-> <<<<0, 0>>, <<0>>>>, out |-> <<0>>],              \* ii,i->i   b:(1,)
+            [sh |-> <<<<1, 3>>, <<2, 3>>>>, a |-> <<Opnd(1), Opnd(2)>>, subs |-> <<<<0, 1>>, <<0, 1>>>>, out |-> <<0>>],        \* ij,ij->i  a:(1,3)
+            [sh |-> <<<<2, 1>>, <<2, 3>>>>, a |-> <<Opnd(1), Opnd(2)>>, subs |-> <<<<0, 1>>, <<0, 1>>>>, out |-> <<>>],         \* ij,ij->   a:(2,1)
+            \* a non-constant tensor together with its own ndarray (x.data: the stop-gradient idiom)
+            [sh |-> <<<<2, 3>>, <<3>>>>, a |-> <<Opnd(1), [hd |-> 1]>>, subs |-> <<<<0, 1>>, <<0, 1>>>>, out |-> <<>>],         \* ij,ij->   x, x.data
+            [sh |-> <<<<3>>, <<3>>>>, a |-> <<Opnd(1), Opnd(2), [hd |-> 1]>>, subs |-> <<<<0>>, <<0>>, <<0>>>>, out |-> <<>>],  \* i,i,i->   x, w, x.data
+            [sh |-> <<<<2, 2>>, <<3>>>>, a |-> <<[hd |-> 1], Opnd(1)>>, subs |-> <<<<0, 1>>, <<1, 0>>>>, out |-> <<0>>]}}       \* ij,ji->i  x.data, x
 \* ---------------------------------------------------------------- convolution and pooling (valid configurations only; C16 decides validity)
 ConvConfigs ==
   {[x |-> <<1, 1, 5>>, w |-> <<1, 1, 2>>, st |-> <<1>>, pd |-> <<0>>, dl |-> <<1>>],
